@@ -28,7 +28,7 @@ CLAIMED = {
          "Regtest only for tracker-level runs; HTLC/second-level spends carry synthetic scripts (the monitor looks at outpoints only); chains up to 40 blocks.",
          "C14"),
  "C13": ("stateful property-based testing of ChainTracker on regtest with mined headers, constructed proofs and attestation sets; one injected fault per request; oracle = reference chain model (accepted implies no injected fault), snapshot equality after every refusal, a valid request succeeds after a rejection",
-         "Held-on-N-histories exploration; the header-pop-before-validation defect was repaired by a fix: commit; the missing abort path for refused streamed blocks is listed as known findings (three signatures, one root cause).",
+         "Held-on-N-histories exploration; three genuine defects (header popped before validation, streamed removal compared against the wrong hash, no abort path for refused streamed blocks) were repaired by fix: commits and are kept as regression replays.",
          "Only regtest proof-of-work can be mined: mainnet/testnet checkpoints get refusal paths only; retarget rule is the x4 band as implemented (no timestamp retargeting).",
          "C13"),
  "C09": ("property-based testing: sweeps with labelled destinations and version/locktime/sequence drawn around their bounds; second-level HTLC transactions as hand-built BOLT-3 reference +- one mutation; oracle = acceptance implies a reference predicate, sighash equality with the hand-built reference, signature verification under the expected derived key",
